@@ -1,2 +1,3 @@
 //! Seeded positives and negatives for the analyses; analysed on every run.
 pub mod tables;
+pub mod stats;
